@@ -8,6 +8,7 @@
 //!               than deliveries; records are byte copies of one delivery each, in order.
 //! --mode dual   C10/C09: the same windows, but at the k-th instruction a second, lazily drained `Pending` batch of
 //!               the same instance is drained completely by a helper thread (Pending is owned and Send).
+//! --mode backlog C09/C03: 1500 deliveries on the consumer's own thread with nothing draining the self-pipe: each must return.
 //! --mode chan   C06/C07/C08: nested channel operations at the k-th instruction of every window of send / recv.
 //!
 //! The sweep is sharded (--shard i --of n); the parent (no --shard) spawns the shards and relays their output.
@@ -245,7 +246,8 @@ where
         a[sig as usize].store(0, Ordering::SeqCst);
     }
     let fds_before = crate::sig::open_fds();
-    let mut signals = match SignalsInfo::with_exfiltrator([other, sig], exf) {
+    // the watched number is listed twice: listing a signal again must not register it again
+    let mut signals = match SignalsInfo::with_exfiltrator([other, sig, sig], exf) {
         Ok(s) => s,
         Err(e) => {
             acc.inconclusive = Some(format!("cannot create the instance: {}", e));
@@ -557,6 +559,86 @@ where
     SH_PTR.store(0, Ordering::SeqCst);
 }
 
+// ------------------------------------------------------------------------------------------- backlog
+
+static BACKLOG_PROGRESS: AtomicU64 = AtomicU64::new(0);
+
+/// C09 (and C03): many deliveries arrive on the consumer's own thread while nothing drains the self-pipe. Every one of them
+/// must return (the wake-up is best effort once the pipe is full); afterwards the consumer obtains the signal.
+fn backlog<E>(ename: &'static str, exf: E, acc: &mut Acc)
+where
+    E: Exfiltrator + Send + 'static,
+    E::Output: Describe + Send,
+    E::Storage: Sync,
+{
+    let sig = libc::SIGUSR2;
+    THE_SIG.store(sig, Ordering::SeqCst);
+    for a in [&DELIV, &YIELDS, &STORE_STAMP, &YIELD_STAMP] {
+        a[sig as usize].store(0, Ordering::SeqCst);
+    }
+    BACKLOG_PROGRESS.store(0, Ordering::SeqCst);
+    let mut signals = match SignalsInfo::with_exfiltrator([sig], exf) {
+        Ok(s) => s,
+        Err(e) => {
+            acc.inconclusive = Some(format!("cannot create the instance: {}", e));
+            return;
+        }
+    };
+    const N: u64 = 1500;
+    let ktid = Arc::new(AtomicI32::new(0));
+    let done = Arc::new(AtomicBool::new(false));
+    let yields = Arc::new(AtomicU64::new(0));
+    let (k2, d2, y2) = (ktid.clone(), done.clone(), yields.clone());
+    let cj = std::thread::spawn(move || {
+        crate::set_thread(CONSUMER, class::CONSUMER);
+        k2.store(crate::sig::gettid(), Ordering::SeqCst);
+        for _ in 0..N {
+            let seq = NEXT_SEQ.fetch_add(1, Ordering::SeqCst);
+            crate::sig::queue_self(sig, seq as usize);
+            BACKLOG_PROGRESS.fetch_add(1, Ordering::SeqCst);
+        }
+        for item in signals.pending() {
+            let (s, _, _, _) = item.describe();
+            if s == sig {
+                y2.fetch_add(1, Ordering::SeqCst);
+            }
+        }
+        d2.store(true, Ordering::SeqCst);
+        drop(signals);
+    });
+    let t0 = crate::now_ms();
+    while !done.load(Ordering::SeqCst) {
+        std::thread::sleep(std::time::Duration::from_millis(2));
+        let kt = ktid.load(Ordering::SeqCst);
+        let prog = || BACKLOG_PROGRESS.load(Ordering::SeqCst);
+        if kt != 0 && OPEN_BRACKETS.load(Ordering::SeqCst) > 0 && crate::probe::stably_blocked_in(kt, &[1, 44, 46, 20], None, 10, 10, &prog) && !done.load(Ordering::SeqCst) {
+            acc.bad("C09", "consumer-blocked-in-its-own-delivery", format!(
+                "{}: with {} wake-ups undrained a delivery on the consumer's own thread is blocked (stable) in write/send inside the handler: the consumer never gets back to wait() and never obtains the signal",
+                ename, BACKLOG_PROGRESS.load(Ordering::SeqCst)));
+            // the thread cannot be joined: report and leave
+            for (p, sg, d) in acc.bad.iter() {
+                emit_violation(p, sg, d);
+            }
+            unsafe { libc::_exit(1) };
+        }
+        if crate::now_ms() - t0 > 60_000 {
+            acc.inconclusive = Some("backlog consumer neither finished nor reached a stable blocked state".into());
+            return;
+        }
+    }
+    let _ = cj.join();
+    acc.trials += 1;
+    acc.fired += 1;
+    acc.yields += yields.load(Ordering::SeqCst);
+    acc.keys.insert(format!("backlog:{}", ename));
+    if yields.load(Ordering::SeqCst) == 0 {
+        acc.bad("C09", "delivery-lost-in-scan", format!("{}: {} deliveries on the consumer's own thread, then a complete pending(): nothing yielded", ename, N));
+    }
+    if acc.samples.len() < 6 {
+        acc.samples.push(J::s(&format!("backlog {}: {} deliveries on the consumer thread with nothing draining, all returned; pending() then yielded {} item(s)", ename, N, yields.load(Ordering::SeqCst))));
+    }
+}
+
 // ------------------------------------------------------------------------------------------- channel
 
 static CH_REC_ON: AtomicBool = AtomicBool::new(false);
@@ -726,7 +808,7 @@ pub fn main(args: &[String]) -> i32 {
         emit(&J::obj().set("type", J::s("inconclusive")).set("reason", J::s("instruction stepping needs x86-64 Linux")));
         return 2;
     }
-    if of == 0 {
+    if of == 0 && md != "backlog" {
         // parent: run the shards as child processes and relay their report lines
         let n = arg_u64(args, "--shards", 8).max(1);
         let exe = std::env::current_exe().expect("exe");
@@ -774,6 +856,20 @@ pub fn main(args: &[String]) -> i32 {
             }
             if acc.bad.is_empty() && acc.inconclusive.is_none() {
                 iter_sweep("WithOrigin", WithOrigin::default(), dual, shard, of, stride, seed, &mut acc);
+            }
+        }
+        "backlog" => {
+            director::set_observer(Some(observer));
+            director::LOG_HOOKS.store(0, Ordering::SeqCst);
+            unsafe {
+                signal_hook_registry::register_sigaction(libc::SIGUSR2, witness).expect("witness");
+            }
+            backlog("SignalOnly", SignalOnly::default(), &mut acc);
+            if acc.bad.is_empty() && acc.inconclusive.is_none() {
+                backlog("WithRawSiginfo", WithRawSiginfo::default(), &mut acc);
+            }
+            if acc.bad.is_empty() && acc.inconclusive.is_none() {
+                backlog("WithOrigin", WithOrigin::default(), &mut acc);
             }
         }
         "chan" => {
